@@ -218,6 +218,9 @@ func (c *localCache) ReadCh(ctx context.Context, name string, opts *Opts, paths 
 				if e == nil {
 					continue //
 				}
+				if !belowAnyPath(e.P, paths) {
+					continue
+				}
 				select {
 				case <-ctx.Done():
 					// the consumer might be gone, do not block forever
